@@ -9,11 +9,21 @@ IND = "  "
 
 
 class Style:
-    """surface choices that must not matter (C05); default = canonical"""
+    """surface choices that must not matter (C05); default = canonical.
+    comments / blank: probability of inserting a comment / blank line before a directive
+    keyword line (never directly after bare Description text, where it would be content);
+    quote: probability of quoting a parameter that needs no quotes; parens: probability of
+    putting the children of a directive in explicit parentheses."""
 
-    def __init__(self, nl="\n", indent=IND, quote_all=False, comments=False, blank=False, trailing=False, rnd=None):
-        self.nl, self.indent, self.quote_all = nl, indent, quote_all
-        self.comments, self.blank, self.trailing, self.rnd = comments, blank, trailing, rnd
+    def __init__(self, nl="\n", indent=IND, comments=0.0, blank=0.0, trailing=False, quote=0.0, parens=0.0,
+                 rnd=None, tabs_between=False):
+        self.nl, self.indent = nl, indent
+        self.comments, self.blank, self.trailing = comments, blank, trailing
+        self.quote, self.parens, self.rnd = quote, parens, rnd
+        self.tabs_between = tabs_between
+
+    def flip(self, p):
+        return p > 0 and self.rnd is not None and self.rnd.random() < p
 
 
 def body_lines(b):
@@ -64,26 +74,60 @@ class Out:
         self.parts = []
         self.pos = 0
         self.style = style
-        self.spans = []   # (label, begin, end) of directive keyword..end of directive text
+        self.spans = []   # [label, keyword begin, depth]
+        self.after_text = True   # nothing emitted yet / last line was free text: no trivia here
 
-    def line(self, depth, text, label=None):
-        st = self.style
-        pre = st.indent * depth
-        s = pre + text + ((" " * 2) if st.trailing else "") + st.nl
-        if label is not None:
-            self.spans.append([label, self.pos + len(pre.encode()), None])
+    def raw(self, s):
         self.parts.append(s)
         self.pos += len(s.encode())
+
+    def trivia(self, depth):
+        st = self.style
+        if self.after_text:
+            return
+        if st.flip(st.blank):
+            self.raw(st.nl if not st.flip(0.5) else "   " + st.nl)
+        if st.flip(st.comments):
+            kind = st.rnd.randrange(3)
+            pre = st.indent * depth
+            if kind == 0:
+                self.raw(pre + "# a comment GET /x" + st.nl)
+            elif kind == 1:
+                self.raw(pre + "### block" + st.nl + "URL /zz" + st.nl + pre + "###" + st.nl)
+            else:
+                self.raw(pre + "###one-line block### # and a line comment" + st.nl)
+
+    def line(self, depth, text, label=None, free_text=False):
+        st = self.style
+        pre = st.indent * depth
+        if label is not None:
+            self.trivia(depth)
+            self.spans.append([label, self.pos + len(pre.encode()), depth])
+        s = pre + text + (("  ") if st.trailing and not free_text else "") + st.nl
+        self.raw(s)
+        self.after_text = free_text
 
     def lines(self, depth, ll):
         for x in ll:
             self.line(depth, x)
 
-    def close_span(self):
-        pass
-
     def text(self):
         return "".join(self.parts)
+
+    def par(self, s):
+        """a parameter that needs no quotes, possibly quoted"""
+        return '"%s"' % s if self.style.flip(self.style.quote) else s
+
+    def open(self, depth):
+        """children in explicit parentheses? returns True if opened"""
+        if self.style.flip(self.style.parens):
+            self.line(depth, "(")
+            return True
+        return False
+
+    def close(self, depth, opened):
+        if opened:
+            self.line(depth, ")")
 
 
 def annot(a):
@@ -94,49 +138,55 @@ def q(s, style):
     return '"%s"' % s
 
 
+def desc_lines(o, depth, text):
+    o.line(depth, "Description", "Description")
+    for ln in text.split("\n"):
+        o.line(depth + 1, ln, free_text=True)
+
+
 def render_spec(o, depth, kw, ann, spec, headers, hdr_body):
     """Request / response directive with its body in the given form"""
     b = spec["b"]
     form = spec["form"]
     k = b["k"]
+    has_children = headers or form == "child"
     if form == "param":
-        if k in ("ref",):
-            o.line(depth, "%s %s%s" % (kw, b["n"], ann), kw)
+        if k == "ref":
+            o.line(depth, "%s %s%s" % (kw, o.par(b["n"]), ann), kw)
         elif k == "arr":
-            o.line(depth, "%s [%s]%s" % (kw, b["n"], ann), kw)
+            o.line(depth, "%s %s%s" % (kw, o.par("[%s]" % b["n"]), ann), kw)
         else:
-            o.line(depth, "%s %s%s" % (kw, k, ann), kw)   # any / empty
-        if headers:
-            o.line(depth + 1, "Headers", "Headers")
-            o.lines(depth + 1, body_lines(hdr_body))
+            o.line(depth, "%s %s%s" % (kw, o.par(k), ann), kw)   # any / empty
+        op = has_children and o.open(depth)
     elif form == "inline":
         if k == "regex":
-            o.line(depth, "%s regex%s" % (kw, ann), kw)
+            o.line(depth, "%s %s%s" % (kw, o.par("regex"), ann), kw)
         else:
             o.line(depth, "%s%s" % (kw, ann), kw)
+        op = has_children and o.open(depth)
         o.lines(depth, body_lines(b))
-        if headers:
-            o.line(depth + 1, "Headers", "Headers")
-            o.lines(depth + 1, body_lines(hdr_body))
     elif form == "child":
         o.line(depth, "%s%s" % (kw, ann), kw)
-        if headers:
-            o.line(depth + 1, "Headers", "Headers")
-            o.lines(depth + 1, body_lines(hdr_body))
+        op = o.open(depth)
+    else:
+        raise ValueError(form)
+    if headers:
+        o.line(depth + 1, "Headers", "Headers")
+        o.lines(depth + 1, body_lines(hdr_body))
+    if form == "child":
         if k == "ref":
-            o.line(depth + 1, "Body %s" % b["n"], "Body")
+            o.line(depth + 1, "Body %s" % o.par(b["n"]), "Body")
         elif k == "arr":
-            o.line(depth + 1, "Body [%s]" % b["n"], "Body")
+            o.line(depth + 1, "Body %s" % o.par("[%s]" % b["n"]), "Body")
         elif k in ("any", "empty"):
-            o.line(depth + 1, "Body %s" % k, "Body")
+            o.line(depth + 1, "Body %s" % o.par(k), "Body")
         elif k == "regex":
-            o.line(depth + 1, "Body regex", "Body")
+            o.line(depth + 1, "Body %s" % o.par("regex"), "Body")
             o.lines(depth + 1, body_lines(b))
         else:
             o.line(depth + 1, "Body", "Body")
             o.lines(depth + 1, body_lines(b))
-    else:
-        raise ValueError(form)
+    o.close(depth, op)
 
 
 HDR = {"k": "obj", "n": "", "props": [{"key": "h1", "vk": "str", "vn": ""}], "allOf": []}
@@ -154,15 +204,20 @@ def path_str(p):
     return "".join("/" + s for s in p)
 
 
+def tags_line(o, depth, tags):
+    o.line(depth, "Tags " + " ".join(o.par(t) for t in tags), "Tags")
+
+
 def render_method(o, depth, m, with_path):
-    head = m["verb"] + ((" " + path_str(m["path"])) if with_path else "")
+    head = m["verb"] + ((" " + o.par(path_str(m["path"]))) if with_path else "")
     o.line(depth, head + annot(m["annot"]), m["verb"])
     d = depth + 1
+    has_children = bool(m["desc"] or m["tags"] or m.get("pathdecl") or m["query"] or m["req"]["form"] != "none" or m["resps"])
+    op = has_children and o.open(depth)
     if m["desc"]:
-        o.line(d, "Description", "Description")
-        o.line(d + 1, m["desc"])
+        desc_lines(o, d, m["desc"])
     if m["tags"]:
-        o.line(d, "Tags " + " ".join(m["tags"]), "Tags")
+        tags_line(o, d, m["tags"])
     render_pathdecl(o, d, m.get("pathdecl") or [])
     if m["query"]:
         o.line(d, 'Query "q1=1"' if m["query"] == "example" else "Query", "Query")
@@ -171,75 +226,106 @@ def render_method(o, depth, m, with_path):
         render_spec(o, d, "Request", "", m["req"], m["reqHeaders"], HDR)
     for r in m["resps"]:
         render_spec(o, d, r["code"], annot(r["annot"]), r["spec"], r["headers"], HDR)
+    for x in m.get("extra") or []:
+        render_block(o, x, d)
+    o.close(depth, op)
 
 
 def render_block(o, b, depth=0):
     t = b["t"]
     if t == "info":
         o.line(depth, "INFO", "INFO")
+        op = o.open(depth)
         if b["title"]:
             o.line(depth + 1, 'Title "%s"' % b["title"], "Title")
         if b["version"]:
-            o.line(depth + 1, "Version %s" % b["version"], "Version")
+            o.line(depth + 1, "Version %s" % o.par(b["version"]), "Version")
         if b["desc"]:
-            o.line(depth + 1, "Description", "Description")
-            o.line(depth + 2, b["desc"])
+            desc_lines(o, depth + 1, b["desc"])
+        for x in b.get("extra") or []:
+            render_block(o, x, depth + 1)
+        o.close(depth, op)
     elif t == "server":
-        o.line(depth, "SERVER %s%s" % (b["name"], annot(b["annot"])), "SERVER")
+        o.line(depth, "SERVER %s%s" % (o.par(b["name"]), annot(b["annot"])), "SERVER")
+        op = o.open(depth)
         o.line(depth + 1, 'BaseUrl "%s"' % b["base"], "BaseUrl")
+        for x in b.get("extra") or []:
+            render_block(o, x, depth + 1)
+        o.close(depth, op)
     elif t == "type":
         k = b["body"]["k"]
         if k == "regex":
-            o.line(depth, "TYPE %s regex%s" % (b["name"], annot(b["annot"])), "TYPE")
+            o.line(depth, "TYPE %s %s%s" % (o.par(b["name"]), o.par("regex"), annot(b["annot"])), "TYPE")
             o.lines(depth, body_lines(b["body"]))
         elif k in ("any", "empty"):
-            o.line(depth, "TYPE %s %s%s" % (b["name"], k, annot(b["annot"])), "TYPE")
+            o.line(depth, "TYPE %s %s%s" % (o.par(b["name"]), o.par(k), annot(b["annot"])), "TYPE")
         else:
-            o.line(depth, "TYPE %s%s" % (b["name"], annot(b["annot"])), "TYPE")
+            o.line(depth, "TYPE %s%s" % (o.par(b["name"]), annot(b["annot"])), "TYPE")
             o.lines(depth, body_lines(b["body"]))
     elif t == "enum":
-        o.line(depth, "ENUM %s%s" % (b["name"], annot(b["annot"])), "ENUM")
+        o.line(depth, "ENUM %s%s" % (o.par(b["name"]), annot(b["annot"])), "ENUM")
         o.lines(depth, ["[", '  "x",', '  "y"', "]"])
     elif t == "tag":
-        o.line(depth, "TAG %s%s" % (b["name"], annot(b["annot"])), "TAG")
-        if b["desc"]:
-            o.line(depth + 1, "Description", "Description")
-            o.line(depth + 2, b["desc"])
+        o.line(depth, "TAG %s%s" % (o.par(b["name"]), annot(b["annot"])), "TAG")
+        if b["desc"] or b.get("extra"):
+            op = o.open(depth)
+            if b["desc"]:
+                desc_lines(o, depth + 1, b["desc"])
+            for x in b.get("extra") or []:
+                render_block(o, x, depth + 1)
+            o.close(depth, op)
     elif t == "url":
-        o.line(depth, "URL " + path_str(b["path"]), "URL")
+        o.line(depth, "URL " + o.par(path_str(b["path"])), "URL")
+        op = o.open(depth)
         if b["tags"]:
-            o.line(depth + 1, "Tags " + " ".join(b["tags"]), "Tags")
+            tags_line(o, depth + 1, b["tags"])
         render_pathdecl(o, depth + 1, b["pathdecl"])
+        for x in b.get("extra_first") or []:
+            render_block(o, x, depth + 1)
         for m in b["methods"]:
             render_method(o, depth + 1, m, False)
+        for x in b.get("extra") or []:
+            render_block(o, x, depth + 1)
+        o.close(depth, op)
     elif t == "method":
         render_method(o, depth, b["m"], True)
     elif t == "rpc":
-        o.line(depth, "URL " + path_str(b["path"]), "URL")
-        o.line(depth + 1, "Protocol json-rpc-2.0", "Protocol")
-        if b["tags"]:
-            o.line(depth + 1, "Tags " + " ".join(b["tags"]), "Tags")
+        o.line(depth, "URL " + o.par(path_str(b["path"])), "URL")
+        op = o.open(depth)
+        o.line(depth + 1, "Protocol %s" % o.par("json-rpc-2.0"), "Protocol")
+        for x in b.get("extra_first") or []:
+            render_block(o, x, depth + 1)
         for m in b["methods"]:
-            o.line(depth + 1, "Method %s%s" % (m["name"], annot(m["annot"])), "Method")
+            o.line(depth + 1, "Method %s%s" % (o.par(m["name"]), annot(m["annot"])), "Method")
+            has_children = bool(m["desc"] or m["tags"] or m["params"]["k"] != "none" or m["result"]["k"] != "none")
+            op2 = has_children and o.open(depth + 1)
             if m["desc"]:
-                o.line(depth + 2, "Description", "Description")
-                o.line(depth + 3, m["desc"])
+                desc_lines(o, depth + 2, m["desc"])
             if m["tags"]:
-                o.line(depth + 2, "Tags " + " ".join(m["tags"]), "Tags")
+                tags_line(o, depth + 2, m["tags"])
             if m["params"]["k"] != "none":
                 o.line(depth + 2, "Params", "Params")
                 o.lines(depth + 2, body_lines(m["params"]))
             if m["result"]["k"] != "none":
                 o.line(depth + 2, "Result", "Result")
                 o.lines(depth + 2, body_lines(m["result"]))
+            o.close(depth + 1, op2)
+        o.close(depth, op)
     elif t == "macro":
-        o.line(depth, "MACRO %s" % b["name"], "MACRO")
+        # a MACRO admits almost every kind, so without parentheses it would swallow the
+        # top-level directives that follow it: the body is always parenthesised
+        o.line(depth, "MACRO %s" % o.par(b["name"]), "MACRO")
+        o.line(depth, "(")
         for x in b["items"]:
             render_block(o, x, depth + 1)
+        o.line(depth, ")")
     elif t == "paste":
-        o.line(depth, "PASTE %s" % b["name"], "PASTE")
+        o.line(depth, "PASTE %s" % o.par(b["name"]), "PASTE")
+    elif t == "include":
+        o.line(depth, "INCLUDE %s" % b["file"], "INCLUDE")
     elif t == "raw":
-        o.lines(depth, b["lines"])
+        for i, ln in enumerate(b["lines"]):
+            o.line(depth, ln, b.get("label") if i == 0 else None)
     else:
         raise ValueError(t)
 
